@@ -214,6 +214,11 @@ def write_schedule(path, g, tours, init_text, obs_fmt=fmt_obs, init_of=None):
                     line = "S %d %s %s\n" % (actor, label, obs_fmt(obs))
                     cache[e] = line
                 out.append(line)
+            if t and getattr(g, "partial", False) and not g.out[g.edges[t[-1]][1]]:
+                # the behaviour stops at a node simulation did not expand: the specification's eager local steps that would
+                # follow the last step are not in the graph, so the state after it cannot be compared
+                u, v, actor, label, obs = g.edges[t[-1]]
+                out[-1] = "S %d %s *\n" % (actor, label)
             last = g.edges[t[-1]][4] if t else {}
             taints = [k for k in GHOST_KEYS if k.startswith("taint") and isinstance(last, dict) and last.get(k)]
             out.append("E %s\n" % " ".join(taints) if taints else "E\n")
